@@ -181,11 +181,12 @@ def gen_problem(cfg, backward=False):
     # milestones are leaves (a milestone with children is outside the claim)
     P.milestone = [bool(cfg.get('milestones') and P.leaf[i] and choose(f'ms{i}', 2)) for i in range(n)]
     rnames = cfg.get('resources', ['r'])
-    P.res = [rnames[choose(f'res{i}', len(rnames))] if P.leaf[i] else None for i in range(n)]
+    # summaries may name a resource too (a phase owner); it books nothing but must be present in the result
+    P.res = [rnames[choose(f'res{i}', len(rnames))] if P.leaf[i] else (['pm', None][choose(f'sres{i}', 2)] if cfg.get('summary_resource') else None)
+             for i in range(n)]
     cals = cfg.get('calendars', ['default'])
     P.cal = {}
-    for nm in sorted(set(x for x in P.res if x is not None)) if not cfg.get('res_none') else sorted(
-            set(x for x in P.res if x is not None)):
+    for nm in sorted(set(P.res[i] for i in range(n) if P.leaf[i] and P.res[i] is not None)):
         P.cal[nm] = cals[choose(f'cal_{nm}', len(cals))]
     P.supplied = {nm: not (cfg.get('unsupplied') and P.cal[nm] == 'default' and choose(f'unsup_{nm}', 2)) for nm in P.cal}
     # project start / deadline and clock
@@ -400,7 +401,7 @@ FWD_QUICK_PROFILES = {
     'n2-resources': dict(PLAIN, n=2, resources=['r', 'q'], calendars=['sparse'], scenarios=[(5, 0)]),
     'n2-fraction': dict(PLAIN, n=2, calendars=['fraction'], grid=8, E=6, scenarios=[(1, -1)]),
     'n2-unbalanced': dict(PLAIN, n=2, balance=[False], scenarios=[(0, -1), (4, 2)]),
-    'n3-summary-values': dict(PLAIN, n=3, summary_values=True, links=False, scenarios=[(2, -1)]),
+    'n3-summary-values': dict(PLAIN, n=3, summary_values=True, summary_resource=True, links=False, scenarios=[(2, -1)]),
     'n2-min-start': dict(PLAIN, n=2, min_start=True, milestones=True, min_start_offsets=[-1, 1, 2], dates_on=1, scenarios=[(1, 0)]),
     'n2-fixed': dict(PLAIN, n=2, fixed=True, fixed_offsets=[-2, 1], dates_on=0, scenarios=[(1, 0), (0, 2), (2, -1)]),
     'n3-two-resources': dict(PLAIN, n=3, fixed_parent=[-1, -1, 1], resources=['r', 'q'], E=10, scenarios=[(0, -1)]),
@@ -413,7 +414,7 @@ BWD_QUICK_PROFILES = {
     'n2-resources': dict(PLAIN, n=2, resources=['r', 'q'], calendars=['sparse'], scenarios=[(5, -1)]),
     'n2-fraction': dict(PLAIN, n=2, calendars=['fraction'], grid=8, E=6, scenarios=[(1, -1)]),
     'n2-unbalanced': dict(PLAIN, n=2, balance=[False], scenarios=[(0, -1), (4, -1)]),
-    'n3-summary-values': dict(PLAIN, n=3, summary_values=True, links=False, scenarios=[(2, -1)]),
+    'n3-summary-values': dict(PLAIN, n=3, summary_values=True, summary_resource=True, links=False, scenarios=[(2, -1)]),
     'n3-two-resources': dict(PLAIN, n=3, fixed_parent=[-1, -1, 1], resources=['r', 'q'], E=10, scenarios=[(0, -1)]),
 }
 
